@@ -17,7 +17,7 @@ import re
 
 from .. import sqlmini
 from ..callgraph import build, top_level_owner
-from ..flow import aliased_store_mutations, call_name, calls_in, mem_store_writes
+from ..flow import aliased_store_mutations, class_live_returns, call_name, calls_in, mem_store_writes
 from ..loader import AnalysisError, ClassInfo, FuncInfo, walk_no_nested
 from ..report import VERIF, Context
 
@@ -69,7 +69,7 @@ def base_mutators(ctx: Context, spec: dict, comps: list[ClassInfo], sites) -> di
                 # lazily initialised holder: `if self._x is None: self._x = ...` of a non-container
                 out.setdefault(m.qualname, (m.loc(w.node), f"writes self.{w.attr} ({w.how})"))
             # store values mutated through a local alias (flow-sensitive reaching definitions)
-            for node, name, attr in aliased_store_mutations(m.node):
+            for node, name, attr in aliased_store_mutations(m.node, None, class_live_returns(m.cls)):
                 if attr in not_store:
                     continue
                 out.setdefault(m.qualname, (m.loc(node), f"mutates self.{attr} through the local alias `{name}`"))
